@@ -58,7 +58,7 @@ def gen_fund(r: random.Random, profile: str = "scripted") -> Dict[str, Any]:
             if u < 0.35:
                 ops.append({"k": "shock", "m": m, "v": r.choice([0.5, 0.9, 1.1, 1.5, 1.0 + r.uniform(-0.5, 0.5)])})
             elif u < 0.55:
-                ops.append({"k": "drift", "m": m, "v": r.choice([0.0, 0.01, -0.01, r.uniform(-0.02, 0.02)])})
+                ops.append({"k": "drift", "m": m, "v": r.choice([0.0, 0.01, -0.01, r.uniform(-0.02, 0.02), 0])})
             elif u < 0.75:
                 ops.append({"k": "vol", "m": m, "v": r.choice([0.0, 0.001, 0.02, 0.08])})
             elif u < 0.9:
@@ -95,6 +95,9 @@ def gen_direct(r: random.Random) -> Dict[str, Any]:
     n = r.randint(2, 4)
     markets = [{"initial": r.choice([100.0, 300.0, 1.0]), "drift": r.choice([0.0, 0.001, -0.002]),
                 "vol": r.choice([0.0, 0.01, 0.015, 0.03]) if i else r.choice([0.01, 0.02])} for i in range(n)]
+    if r.random() < 0.25:
+        for m_ in markets:
+            m_["drift"] = r.choice([0, 0, 1]) if r.random() < 0.2 else 0  # all drifts written as whole numbers
     ids = r.sample(range(0, 12), n)
     if r.random() < 0.3:
         ids.sort()
